@@ -217,8 +217,8 @@ pub fn tiles_tok(m: &BTreeMap<u64, (u64, u32)>) -> String {
 // ---------------------------------------------------------------------------------------------
 // histories
 // ---------------------------------------------------------------------------------------------
-pub type SyncPm = PMTiles<Cursor<Vec<u8>>>;
-pub type AsyncPm = PMTiles<futures::io::Cursor<Vec<u8>>>;
+pub type SyncPm = PMTiles<crate::streams::Frag>;
+pub type AsyncPm = PMTiles<crate::streams::AFrag>;
 pub enum St {
     S(SyncPm),
     A(AsyncPm),
@@ -240,9 +240,9 @@ pub fn fresh(asy: bool) -> St {
 }
 pub fn open(asy: bool, b: Vec<u8>, rg: Range) -> std::io::Result<St> {
     if asy {
-        Ok(St::A(block_on(PMTiles::from_async_reader_partially(futures::io::Cursor::new(b), rg))?))
+        Ok(St::A(block_on(PMTiles::from_async_reader_partially(crate::streams::AFrag::new(b), rg))?))
     } else {
-        Ok(St::S(PMTiles::from_bytes_partially(b, rg)?))
+        Ok(St::S(PMTiles::from_reader_partially(crate::streams::Frag::new(b), rg)?))
     }
 }
 fn res3<T>(r: std::thread::Result<std::io::Result<T>>) -> Result<T, &'static str> {
